@@ -103,14 +103,14 @@ class Gen:
         base = self.template[a.ent.block][i % 3]
         unit = S(self.unit_of(base)) if base and r.random() < 0.8 else '~'
         q = r.random()
-        if q < 0.35:
+        if q < 0.3:
             w.emit('adim %s range %s %s %s' % (a.ent.slot, lst([f64(x) for x in tick_values(r, n)]), r.choice(['~', S('lbl')]), unit))
             a.dims.append(('range', base if unit != '~' else None))
-        elif q < 0.65:
+        elif q < 0.55:
             off = r.choice(['~', '~', f64(0.25), f64(100.0)]) if unit != '~' else '~'
             w.emit('adim %s sampled %s %s %s %s' % (a.ent.slot, f64(r.choice([1.0, 0.1, 5e-324, 1e300, 2.5])), r.choice(['~', S('time')]), unit, off))
             a.dims.append(('sampled', base if unit != '~' else None))
-        elif q < 0.9 or not self.frames_of(a.ent.block):
+        elif q < 0.8 or not self.frames_of(a.ent.block):
             labels = [S(r.choice(['l%d' % k, 'ü', 'a b'])) for k in range(n)] if r.random() < 0.6 else []
             w.emit('adim %s set %s' % (a.ent.slot, lst(labels)))
             a.dims.append(('set', None))
@@ -257,7 +257,8 @@ class Gen:
         arrs = [a for a in self.arrs if a.ent.alive]
         tags = [t for t in self.tags if t.ent.alive]
         kinds = ['rank', 'rank', 'size', 'size', 'size', 'unsorted', 'unsorted', 'interval', 'interval', 'units', 'units', 'units',
-                 'positions', 'positions', 'featdata', 'featdata', 'blank', 'blank', 'tagunit', 'dimunit', 'position', 'propunit', 'notype', 'nointerval']
+                 'positions', 'positions', 'featdata', 'featdata', 'blank', 'blank', 'tagunit', 'dimunit', 'position', 'propunit', 'notype', 'nointerval',
+                 'rows', 'rows', 'noticks']
         k = r.choice(kinds)
         if k == 'rank' and arrs:
             a = r.choice(arrs)
@@ -282,6 +283,20 @@ class Gen:
                     if fs:
                         for f in fs: w.emit('vl_set %s rows %d' % (f.ent.slot, n)); f.rows = n
             return k
+        if k == 'rows':
+            c = [(a, i) for a in arrs for i, d in enumerate(a.dims) if d[0] == 'frame' and i < len(a.shape)]
+            fs = [f for f in self.frames if f.ent.alive]
+            if c and fs:
+                a, i = r.choice(c)
+                for f in self.frames_of(a.ent.block):
+                    if f.rows == a.shape[i]:
+                        f.rows = a.shape[i] + r.choice([1, 2, -1]) if a.shape[i] > 1 else a.shape[i] + 1
+                        w.emit('vl_set %s rows %d' % (f.ent.slot, f.rows))
+                return k
+        if k == 'noticks':
+            c = [(a, i) for a in arrs for i, d in enumerate(a.dims) if d[0] == 'range']
+            if c:
+                a, i = r.choice(c); self.raw('setvec', a.ent, 'dimensions/%d/ticks' % (i + 1), '[]'); return k
         if k == 'unsorted':
             c = [(a, i) for a in arrs for i, d in enumerate(a.dims) if d[0] == 'range']
             if c:
@@ -431,7 +446,7 @@ def malformed(rng, tier):
 
 def cases(tier, seed, rng):
     from vlib.runner import Case
-    n = 170 if tier == 'quick' else 2500
+    n = 170 if tier == 'quick' else 600
     out = []
     for _ in range(n):
         lines, origin = history(rng, tier)
